@@ -205,6 +205,8 @@ def emit(res: Result, *, wall_s: float, seed: int, explanation: str, error: str 
         os.makedirs(os.path.join(VERIF_DIR, "evidence"), exist_ok=True)
         with open(os.path.join(VERIF_DIR, "evidence", f"{res.prop}.json"), "w", encoding="utf-8") as fh:
             json.dump(ev, fh, indent=1)
+    if new:
+        return 1  # definite violations stand even if another rule lost its anchor
     if error:
         return 2
-    return 1 if new else 0
+    return 0
